@@ -1,10 +1,18 @@
 /-
-C13 — fail-stop: property theorems about the packers' skeleton (Sqfs/Model/FailStop.lean) and the block
+C13 — fail-stop: property theorems about the tools' skeleton (Sqfs/Model/FailStop.lean) and the block
 processor with fallible primitives (Sqfs/Model/FailStopBlockProc.lean).
 
-`Variant.fixed` is the source with fixes/C13-*.patch applied (every result checked, init unlinks);
-`Variant.current` is the pinned source — the negations for it are in Sqfs/Witness/C13.lean.
+`Variant.current` is /repo as it is; `Variant.fixed` is /repo + fixes/C13-relative-output-with-packdir.patch;
+`Variant.snapshot` is the source as first pinned (regression witnesses in Sqfs/Witness/C13.lean).
+`AllChecked v` (every result of the skeleton is tested) holds for `current` and `fixed`.
 All theorems quantify over every configuration `c` and every fault script `fs : List Bool`.
+
+What these theorems are and are not: they are statements about the *model*.  Their C-specific content is the
+order of the sites, the reaction to each failure, the phase structure of `main`, and what `unlink` is applied
+to.  That content is compared with the real tools on every run of the check: the ordered list of calls each
+real run makes (recorded by instrumentation) must equal `Trace.ran` of `run` for the same fault position, and
+exit status, presence of the output, diagnostic, progress messages and the outcome of `unlink` must equal the
+corresponding fields of `Result` (tools/checks/c13.py).
 -/
 import Sqfs.Proofs.FailStop
 import Sqfs.Proofs.FailStopBlockProc
@@ -13,48 +21,48 @@ open Sqfs.FailStop
 
 /-- When every result is checked the phases compose: the run is one walk over the whole program. -/
 theorem run_checked {v : Variant} (hA : AllChecked v) (c : Cfg) (fs : List Bool) :
-    (run v c fs).trace = (runSites v c.quiet 0 (program c) fs {}).2.2 ∧
-    ((run v c fs).status = 0 ↔ (runSites v c.quiet 0 (program c) fs {}).1 = true) := by
+    (run v c fs).trace = (runSites v c 0 (program v c) fs {}).2.2 ∧
+    ((run v c fs).status = 0 ↔ (runSites v c 0 (program v c) fs {}).1 = true) := by
   unfold program run
   rw [List.append_assoc, List.append_assoc, runSites_checked_append hA]
-  rcases h1 : runSites v c.quiet 0 (preSites c) fs {} with ⟨ok1, fs1, t1⟩
+  rcases h1 : runSites v c 0 (preSites c) fs {} with ⟨ok1, fs1, t1⟩
   cases ok1
   · simp
   · simp only []
     rw [runSites_checked_append hA]
-    rcases h2 : runSites v c.quiet 0 (initSites c) fs1 t1 with ⟨ok2, fs2, t2⟩
+    rcases h2 : runSites v c 0 (initSites c) fs1 t1 with ⟨ok2, fs2, t2⟩
     cases ok2
     · simp
     · simp only []
       rw [runSites_checked_append hA]
-      rcases h3 : runSites v c.quiet 0 (bodySites c) fs2 t2 with ⟨ok3, fs3, t3⟩
+      rcases h3 : runSites v c 0 (bodySites v c) fs2 t2 with ⟨ok3, fs3, t3⟩
       cases ok3
       · simp
       · simp only []
-        rcases h4 : runSites v c.quiet 0 (finishSites c) fs3 t3 with ⟨ok4, fs4, t4⟩
+        rcases h4 : runSites v c 0 (finishSites c) fs3 t3 with ⟨ok4, fs4, t4⟩
         cases ok4 <;> simp
 
 /-- **Exit status 0 is assigned only at the end** (every variant, every script): a run that exits 0 went through
     `sqfs_writer_finish` returning 0, reached `sqfs_writer_cleanup` with `EXIT_SUCCESS`, no call site reported a
-    failure, and the output file is in place. -/
+    failure, no `unlink` was attempted and the output file is in place. -/
 theorem status_success_only_at_end (v : Variant) (c : Cfg) (fs : List Bool) :
     (run v c fs).status = 0 →
       (run v c fs).finishOk = true ∧ (run v c fs).cleanupReached = true ∧
-      (run v c fs).trace.failed = none ∧ (run v c fs).out = .present := by
+      (run v c fs).trace.failed = none ∧ (run v c fs).out = .present ∧ (run v c fs).unlinkHit = none := by
   unfold run
-  rcases h1 : runSites v c.quiet 0 (preSites c) fs {} with ⟨ok1, fs1, t1⟩
+  rcases h1 : runSites v c 0 (preSites c) fs {} with ⟨ok1, fs1, t1⟩
   cases ok1
   · simp
   · simp only []
-    rcases h2 : runSites v c.quiet 0 (initSites c) fs1 t1 with ⟨ok2, fs2, t2⟩
+    rcases h2 : runSites v c 0 (initSites c) fs1 t1 with ⟨ok2, fs2, t2⟩
     cases ok2
     · simp
     · simp only []
-      rcases h3 : runSites v c.quiet 0 (bodySites c) fs2 t2 with ⟨ok3, fs3, t3⟩
+      rcases h3 : runSites v c 0 (bodySites v c) fs2 t2 with ⟨ok3, fs3, t3⟩
       cases ok3
       · simp
       · simp only []
-        rcases h4 : runSites v c.quiet 0 (finishSites c) fs3 t3 with ⟨ok4, fs4, t4⟩
+        rcases h4 : runSites v c 0 (finishSites c) fs3 t3 with ⟨ok4, fs4, t4⟩
         cases ok4
         · simp
         · intro _
@@ -62,115 +70,217 @@ theorem status_success_only_at_end (v : Variant) (c : Cfg) (fs : List Bool) :
           have e2 := runSites_true_failed _ _ _ _ _ _ _ _ h2
           have e3 := runSites_true_failed _ _ _ _ _ _ _ _ h3
           have e4 := runSites_true_failed _ _ _ _ _ _ _ _ h4
-          refine ⟨rfl, rfl, ?_, by simp [cleanup]⟩
+          refine ⟨rfl, rfl, ?_, by simp [cleanup], by simp [cleanup]⟩
           simp only []
           rw [e4, e3, e2, e1]
 
-/-- With every result checked, exit 0 means that **no modelled step failed**: the script has no fault at any
-    position of the program, and every site of the program ran. -/
-theorem status_success_no_fault (c : Cfg) (fs : List Bool) :
-    (run .fixed c fs).status = 0 →
-      allFalse (program c).length fs ∧ (run .fixed c fs).trace.ran = program c := by
+/-- With every result checked (/repo as it is, and the repaired source), exit 0 means that **no modelled step
+    failed**: the script has no fault at any position of the program, and every site of the program ran. -/
+theorem status_success_no_fault {v : Variant} (hA : AllChecked v) (c : Cfg) (fs : List Bool) :
+    (run v c fs).status = 0 →
+      allFalse (program v c).length fs ∧ (run v c fs).trace.ran = program v c := by
   intro h
-  obtain ⟨ht, hs⟩ := run_checked fixed_allChecked c fs
+  obtain ⟨ht, hs⟩ := run_checked hA c fs
   have hok := hs.1 h
-  rw [runSites_checked fixed_allChecked] at hok ht
-  cases hft : firstTrue (program c).length fs with
+  rw [runSites_checked hA] at hok ht
+  cases hft : firstTrue (program v c).length fs with
   | some k => rw [hft] at hok; simp at hok
   | none =>
     rw [hft] at ht
     refine ⟨(firstTrue_none_iff _ _).1 hft, ?_⟩
     rw [ht]; simp [okAll_ran]
 
-/-- **`sqfs_writer_cleanup(status)` unlinks unless success** (every variant): whenever the cleanup is reached with
-    a non-zero status the output file is removed. -/
-theorem cleanup_unlinks_unless_success (v : Variant) (c : Cfg) (fs : List Bool) :
-    (run v c fs).status ≠ 0 → (run v c fs).cleanupReached = true → (run v c fs).out = .unlinked := by
+/-- **What `sqfs_writer_cleanup(status)` does** (every variant): reached with a non-zero status it calls
+    `unlink` on the stored name; the output file is gone afterwards exactly when that name, resolved against the
+    directory the process is in *at that moment*, designates the output file. -/
+theorem cleanup_unlinks_the_stored_name (v : Variant) (c : Cfg) (fs : List Bool) :
+    (run v c fs).status ≠ 0 → (run v c fs).cleanupReached = true →
+      (run v c fs).unlinkHit = some (nameResolves c (run v c fs).trace) ∧
+      ((run v c fs).out = .unlinked ↔ nameResolves c (run v c fs).trace = true) ∧
+      ((run v c fs).out = .present ↔ nameResolves c (run v c fs).trace = false) := by
   unfold run
-  rcases h1 : runSites v c.quiet 0 (preSites c) fs {} with ⟨ok1, fs1, t1⟩
+  rcases h1 : runSites v c 0 (preSites c) fs {} with ⟨ok1, fs1, t1⟩
   cases ok1
   · simp
   · simp only []
-    rcases h2 : runSites v c.quiet 0 (initSites c) fs1 t1 with ⟨ok2, fs2, t2⟩
+    rcases h2 : runSites v c 0 (initSites c) fs1 t1 with ⟨ok2, fs2, t2⟩
     cases ok2
     · simp
     · simp only []
-      rcases h3 : runSites v c.quiet 0 (bodySites c) fs2 t2 with ⟨ok3, fs3, t3⟩
+      rcases h3 : runSites v c 0 (bodySites v c) fs2 t2 with ⟨ok3, fs3, t3⟩
       cases ok3
-      · simp [cleanup]
+      · cases hn : nameResolves c t3 <;> simp [cleanup, unlinkOut, hn]
       · simp only []
-        rcases h4 : runSites v c.quiet 0 (finishSites c) fs3 t3 with ⟨ok4, fs4, t4⟩
-        cases ok4 <;> simp [cleanup]
+        rcases h4 : runSites v c 0 (finishSites c) fs3 t3 with ⟨ok4, fs4, t4⟩
+        cases ok4
+        · cases hn : nameResolves c t4 <;> simp [cleanup, unlinkOut, hn]
+        · simp
 
 /-- The paths on which the cleanup is **not** reached, precisely: a failure reported by a site that runs before
-    the writer exists (tar2sqfs.c:20-34) or inside `sqfs_writer_init` (init.c:54-196); `main` then returns
-    `EXIT_FAILURE` directly (mkfs.c:108) or jumps past the cleanup (tar2sqfs.c:38 `goto out_it`). -/
+    the writer exists (tar2sqfs.c:20-34) or inside `sqfs_writer_init`; `main` then returns `EXIT_FAILURE`
+    directly (mkfs.c:108) or jumps past the cleanup (tar2sqfs.c:38 `goto out_it`). -/
 theorem cleanup_not_reached_only_in_init (v : Variant) (c : Cfg) (fs : List Bool) :
     (run v c fs).cleanupReached = false →
       (run v c fs).status = 1 ∧ ∃ s, s ∈ preSites c ++ initSites c ∧ (run v c fs).trace.failed = some s := by
   unfold run
-  rcases h1 : runSites v c.quiet 0 (preSites c) fs {} with ⟨ok1, fs1, t1⟩
+  rcases h1 : runSites v c 0 (preSites c) fs {} with ⟨ok1, fs1, t1⟩
   cases ok1
   · intro _
     obtain ⟨s, hs, hf⟩ := runSites_false_failed _ _ _ _ _ _ _ _ h1
     exact ⟨rfl, s, List.mem_append_left _ hs, hf⟩
   · simp only []
-    rcases h2 : runSites v c.quiet 0 (initSites c) fs1 t1 with ⟨ok2, fs2, t2⟩
+    rcases h2 : runSites v c 0 (initSites c) fs1 t1 with ⟨ok2, fs2, t2⟩
     cases ok2
     · intro _
       obtain ⟨s, hs, hf⟩ := runSites_false_failed _ _ _ _ _ _ _ _ h2
       exact ⟨rfl, s, List.mem_append_right _ hs, hf⟩
     · simp only []
-      rcases h3 : runSites v c.quiet 0 (bodySites c) fs2 t2 with ⟨ok3, fs3, t3⟩
+      rcases h3 : runSites v c 0 (bodySites v c) fs2 t2 with ⟨ok3, fs3, t3⟩
       cases ok3
       · simp
       · simp only []
-        rcases h4 : runSites v c.quiet 0 (finishSites c) fs3 t3 with ⟨ok4, fs4, t4⟩
+        rcases h4 : runSites v c 0 (finishSites c) fs3 t3 with ⟨ok4, fs4, t4⟩
         cases ok4 <;> simp
 
-/-- With fixes/C13-init-unlink.patch a failing run **never** leaves the output file behind, whichever site
-    fails (for the pinned source see `Witness.C13.init_failure_leaves_output`). -/
+/-- **A failing run of the repaired packers never leaves the output file behind**, whichever site fails, whatever
+    the output name looks like and wherever `pack_files` went (fixes/C13-relative-output-with-packdir.patch).
+    For /repo as it is the statement is false: `Witness.C13.relative_output_left_behind`. -/
 theorem failure_never_leaves_output (c : Cfg) (fs : List Bool) :
     (run .fixed c fs).status ≠ 0 → (run .fixed c fs).out ≠ .present := by
+  have s0 : Safe ({} : Trace) := Or.inr rfl
   unfold run
-  rcases h1 : runSites .fixed c.quiet 0 (preSites c) fs {} with ⟨ok1, fs1, t1⟩
+  rcases h1 : runSites .fixed c 0 (preSites c) fs {} with ⟨ok1, fs1, t1⟩
+  have s1 := safe_phase _ _ _ _ _ _ _ _ (chdirPack_not_mem_pre c) h1 s0
   cases ok1
   · simp
   · simp only []
-    rcases h2 : runSites .fixed c.quiet 0 (initSites c) fs1 t1 with ⟨ok2, fs2, t2⟩
+    rcases h2 : runSites .fixed c 0 (initSites c) fs1 t1 with ⟨ok2, fs2, t2⟩
+    have s2 := safe_phase _ _ _ _ _ _ _ _ (chdirPack_not_mem_init c) h2 s1
     cases ok2
-    · simp only [afterFailedInit, Variant.fixed]
+    · simp only [afterFailedInit, Variant.fixed, unlinkOut, nameResolves_of_safe c t2 s2]
       intro _
       split <;> simp
     · simp only []
-      rcases h3 : runSites .fixed c.quiet 0 (bodySites c) fs2 t2 with ⟨ok3, fs3, t3⟩
+      rcases h3 : runSites .fixed c 0 (bodySites .fixed c) fs2 t2 with ⟨ok3, fs3, t3⟩
+      have s3 := safe_body_fixed _ _ _ _ _ _ h3 s2
       cases ok3
-      · simp [cleanup]
+      · simp [cleanup, unlinkOut, nameResolves_of_safe c t3 s3]
       · simp only []
-        rcases h4 : runSites .fixed c.quiet 0 (finishSites c) fs3 t3 with ⟨ok4, fs4, t4⟩
-        cases ok4 <;> simp [cleanup]
+        rcases h4 : runSites .fixed c 0 (finishSites c) fs3 t3 with ⟨ok4, fs4, t4⟩
+        have s4 := safe_phase _ _ _ _ _ _ _ _ (chdirPack_not_mem_finish c) h4 s3
+        cases ok4 <;> simp [cleanup, unlinkOut, nameResolves_of_safe c t4 s4]
+
+/-  Full statement for /repo as it is — FALSE (Witness.C13.not_failure_never_leaves_output_current):
+      theorem failure_never_leaves_output_current (c : Cfg) (fs : List Bool) :
+          (run .current c fs).status ≠ 0 → (run .current c fs).out ≠ .present
+    What does hold of the current source is the statement restricted to the command lines on which the defect
+    cannot show: -/
+/-- /repo as it is: a failing run removes its output **provided** the output name is absolute or no pack
+    directory is given (every variant in which a failed init removes the file).  Missing for the full statement:
+    relative output name × `--pack-dir`, where it is false. -/
+theorem failure_never_leaves_output_partial (v : Variant) (hv : v.initUnlinks = true) (c : Cfg) (fs : List Bool) :
+    (c.relOut = false ∨ c.packDir = false) →
+    (run v c fs).status ≠ 0 → (run v c fs).out ≠ .present := by
+  intro hc
+  -- under the hypothesis every phase keeps the name valid
+  have key : ∀ (sites : List Site) (fs : List Bool) (t : Trace) (ok : Bool) (fs' : List Bool) (t' : Trace),
+      (sites = preSites c ∨ sites = initSites c ∨ sites = bodySites v c ∨ sites = finishSites c) →
+      runSites v c 0 sites fs t = (ok, fs', t') → nameResolves c t = true → nameResolves c t' = true := by
+    intro sites fs t ok fs' t' hsites h hn
+    rcases hc with hc | hc
+    · simp [nameResolves, hc]
+    · have hm : Site.chdirPack ∉ sites := by
+        rcases hsites with e | e | e | e <;> subst e
+        · exact chdirPack_not_mem_pre c
+        · exact chdirPack_not_mem_init c
+        · exact chdirPack_not_mem_body v c hc
+        · exact chdirPack_not_mem_finish c
+      have hcwd := runSites_cwd v c _ _ _ _ _ _ _ hm h
+      unfold nameResolves at hn ⊢
+      rw [hcwd]
+      cases hr : c.relOut
+      · simp
+      · cases ha : t.absName
+        · simp [hr, ha] at hn ⊢; exact Or.inr hn
+        · simp [runSites_absName v c _ _ _ _ _ _ _ h ha]
+  have n0 : nameResolves c ({} : Trace) = true := by simp [nameResolves]
+  unfold run
+  rcases h1 : runSites v c 0 (preSites c) fs {} with ⟨ok1, fs1, t1⟩
+  have n1 := key _ _ _ _ _ _ (Or.inl rfl) h1 n0
+  cases ok1
+  · simp
+  · simp only []
+    rcases h2 : runSites v c 0 (initSites c) fs1 t1 with ⟨ok2, fs2, t2⟩
+    have n2 := key _ _ _ _ _ _ (Or.inr (Or.inl rfl)) h2 n1
+    cases ok2
+    · simp only [afterFailedInit, hv, unlinkOut, n2]
+      intro _
+      split <;> simp
+    · simp only []
+      rcases h3 : runSites v c 0 (bodySites v c) fs2 t2 with ⟨ok3, fs3, t3⟩
+      have n3 := key _ _ _ _ _ _ (Or.inr (Or.inr (Or.inl rfl))) h3 n2
+      cases ok3
+      · simp [cleanup, unlinkOut, n3]
+      · simp only []
+        rcases h4 : runSites v c 0 (finishSites c) fs3 t3 with ⟨ok4, fs4, t4⟩
+        have n4 := key _ _ _ _ _ _ (Or.inr (Or.inr (Or.inr rfl))) h4 n3
+        cases ok4 <;> simp [cleanup, unlinkOut, n4]
+
+/-- **A failing run says why**: the site whose failure is reported prints a diagnostic (every variant with the
+    export-table repair, i.e. /repo as it is and the repaired source). -/
+theorem failure_has_diagnostic (v : Variant) (hv : v.exportChecked = true) (c : Cfg) (fs : List Bool) :
+    (run v c fs).status ≠ 0 → ∃ s, (run v c fs).trace.failed = some s ∧ diagOnFail v s = true := by
+  have hd : ∀ s, diagOnFail v s = true := by
+    intro s; cases s <;> simp [diagOnFail, hv]
+  unfold run
+  rcases h1 : runSites v c 0 (preSites c) fs {} with ⟨ok1, fs1, t1⟩
+  cases ok1
+  · intro _
+    obtain ⟨s, _, hf⟩ := runSites_false_failed _ _ _ _ _ _ _ _ h1
+    exact ⟨s, hf, hd s⟩
+  · simp only []
+    rcases h2 : runSites v c 0 (initSites c) fs1 t1 with ⟨ok2, fs2, t2⟩
+    cases ok2
+    · intro _
+      obtain ⟨s, _, hf⟩ := runSites_false_failed _ _ _ _ _ _ _ _ h2
+      exact ⟨s, hf, hd s⟩
+    · simp only []
+      rcases h3 : runSites v c 0 (bodySites v c) fs2 t2 with ⟨ok3, fs3, t3⟩
+      cases ok3
+      · intro _
+        obtain ⟨s, _, hf⟩ := runSites_false_failed _ _ _ _ _ _ _ _ h3
+        exact ⟨s, hf, hd s⟩
+      · simp only []
+        rcases h4 : runSites v c 0 (finishSites c) fs3 t3 with ⟨ok4, fs4, t4⟩
+        cases ok4
+        · intro _
+          obtain ⟨s, _, hf⟩ := runSites_false_failed _ _ _ _ _ _ _ _ h4
+          exact ⟨s, hf, hd s⟩
+        · simp
 
 /-- **A run with exit 0 performed exactly the fault-free sequence**: same output-producing steps in the same
-    order, same progress messages, same sites — the whole result equals the fault-free one. -/
-theorem exit0_output_eq_fault_free (c : Cfg) (fs : List Bool) :
-    (run .fixed c fs).status = 0 → run .fixed c fs = faultFree .fixed c := by
+    order, same progress messages, same sites — the whole result equals the fault-free one (every variant in
+    which every result is checked).  This is about the *step sequence*; that the bytes written are the same is
+    established per run by the enumeration only. -/
+theorem exit0_output_eq_fault_free {v : Variant} (hA : AllChecked v) (c : Cfg) (fs : List Bool) :
+    (run v c fs).status = 0 → run v c fs = faultFree v c := by
   intro h
-  have hff := (status_success_no_fault c fs h).1
+  have hff := (status_success_no_fault hA c fs h).1
   -- both runs are clean walks of every phase
-  have key : ∀ gs : List Bool, allFalse (program c).length gs → run .fixed c gs =
-      ⟨0, .present, true, true, okAll c.quiet (finishSites c) (okAll c.quiet (bodySites c)
-        (okAll c.quiet (initSites c) (okAll c.quiet (preSites c) {})))⟩ := by
+  have key : ∀ gs : List Bool, allFalse (program v c).length gs → run v c gs =
+      ⟨0, .present, true, true, none, okAll c (finishSites c) (okAll c (bodySites v c)
+        (okAll c (initSites c) (okAll c (preSites c) {})))⟩ := by
     intro gs hg
     have l1 : allFalse (preSites c).length gs := fun i hi => hg i (by simp [program]; omega)
     have l2 : allFalse (initSites c).length (gs.drop (preSites c).length) := fun i hi => by
       have := hg (i + (preSites c).length) (by simp [program]; omega)
       simpa [List.getD_eq_getElem?_getD, Nat.add_comm] using this
-    have l3 : allFalse (bodySites c).length ((gs.drop (preSites c).length).drop (initSites c).length) := fun i hi => by
+    have l3 : allFalse (bodySites v c).length ((gs.drop (preSites c).length).drop (initSites c).length) := fun i hi => by
       have := hg (i + (initSites c).length + (preSites c).length) (by simp [program]; omega)
       simpa [List.getD_eq_getElem?_getD, Nat.add_comm, Nat.add_assoc, Nat.add_left_comm] using this
     have l4 : allFalse (finishSites c).length
-        (((gs.drop (preSites c).length).drop (initSites c).length).drop (bodySites c).length) := fun i hi => by
-      have := hg (i + (bodySites c).length + (initSites c).length + (preSites c).length) (by simp [program]; omega)
+        (((gs.drop (preSites c).length).drop (initSites c).length).drop (bodySites v c).length) := fun i hi => by
+      have := hg (i + (bodySites v c).length + (initSites c).length + (preSites c).length) (by simp [program]; omega)
       simpa [List.getD_eq_getElem?_getD, Nat.add_comm, Nat.add_assoc, Nat.add_left_comm] using this
     unfold run
     rw [runSites_clean _ _ _ _ _ l1]
@@ -186,35 +296,36 @@ theorem exit0_output_eq_fault_free (c : Cfg) (fs : List Bool) :
 /-- **The first failure stops the run**: if the first fault of the script is at position `k` of the program, the
     run exits 1, the sites executed are exactly the first `k+1` of the program (the failing one last), the
     output-producing steps performed are exactly those of the first `k` sites, and the reported site is the
-    `k`-th.  No later site runs, in particular no output-producing one. -/
-theorem first_failure_stops (c : Cfg) (fs : List Bool) (k : Nat) :
-    k < (program c).length → allFalse k fs → fs.getD k false = true →
-      (run .fixed c fs).status = 1 ∧
-      (run .fixed c fs).trace.ran = (program c).take (k + 1) ∧
-      (run .fixed c fs).trace.ops = ((program c).take k).flatMap emits ∧
-      (run .fixed c fs).trace.failed = (program c)[k]? := by
+    `k`-th.  No later site runs, in particular no output-producing one.  (Every variant in which every result is
+    checked: /repo as it is and the repaired source.) -/
+theorem first_failure_stops {v : Variant} (hA : AllChecked v) (c : Cfg) (fs : List Bool) (k : Nat) :
+    k < (program v c).length → allFalse k fs → fs.getD k false = true →
+      (run v c fs).status = 1 ∧
+      (run v c fs).trace.ran = (program v c).take (k + 1) ∧
+      (run v c fs).trace.ops = ((program v c).take k).flatMap emits ∧
+      (run v c fs).trace.failed = (program v c)[k]? := by
   intro hk haf hf
-  obtain ⟨ht, hs⟩ := run_checked fixed_allChecked c fs
-  have hft : firstTrue (program c).length fs = some k := (firstTrue_some _ _ _).2 ⟨hk, haf, hf⟩
-  rw [runSites_checked fixed_allChecked, hft] at ht hs
+  obtain ⟨ht, hs⟩ := run_checked hA c fs
+  have hft : firstTrue (program v c).length fs = some k := (firstTrue_some _ _ _).2 ⟨hk, haf, hf⟩
+  rw [runSites_checked hA, hft] at ht hs
   simp only [] at ht hs
-  have hst : (run .fixed c fs).status ≠ 0 := fun h => by simpa using hs.1 h
-  have hst1 : (run .fixed c fs).status = 1 := by
-    have : (run .fixed c fs).status = 0 ∨ (run .fixed c fs).status = 1 := by
+  have hst : (run v c fs).status ≠ 0 := fun h => by simpa using hs.1 h
+  have hst1 : (run v c fs).status = 1 := by
+    have : (run v c fs).status = 0 ∨ (run v c fs).status = 1 := by
       unfold run
-      rcases runSites .fixed c.quiet 0 (preSites c) fs {} with ⟨ok1, fs1, t1⟩
+      rcases runSites v c 0 (preSites c) fs {} with ⟨ok1, fs1, t1⟩
       cases ok1
       · simp
       · simp only []
-        rcases runSites .fixed c.quiet 0 (initSites c) fs1 t1 with ⟨ok2, fs2, t2⟩
+        rcases runSites v c 0 (initSites c) fs1 t1 with ⟨ok2, fs2, t2⟩
         cases ok2
         · simp
         · simp only []
-          rcases runSites .fixed c.quiet 0 (bodySites c) fs2 t2 with ⟨ok3, fs3, t3⟩
+          rcases runSites v c 0 (bodySites v c) fs2 t2 with ⟨ok3, fs3, t3⟩
           cases ok3
           · simp
           · simp only []
-            rcases runSites .fixed c.quiet 0 (finishSites c) fs3 t3 with ⟨ok4, fs4, t4⟩
+            rcases runSites v c 0 (finishSites c) fs3 t3 with ⟨ok4, fs4, t4⟩
             cases ok4 <;> simp
     rcases this with h | h
     · exact absurd h hst
@@ -226,19 +337,55 @@ theorem first_failure_stops (c : Cfg) (fs : List Bool) (k : Nat) :
   · rw [ht]; simp [failAt, okAll_ops]
   · rw [ht]; simp [failAt, List.getD_eq_getElem?_getD, List.getElem?_eq_getElem hk]
 
+/-! ### the readers: sqfs2tar and rdsquashfs -/
+
+/-- **sqfs2tar / rdsquashfs exit 0 only when nothing failed**: the script has no fault at any site of `main` and
+    every site ran. -/
+theorem reader_status_success_no_fault (c : RCfg) (fs : List Bool) :
+    (runReader c fs).status = 0 →
+      allFalse (readerSites c).length fs ∧ (runReader c fs).trace.ran = readerSites c ∧
+      (runReader c fs).trace.failed = none := by
+  unfold runReader
+  rw [runSites_checked current_allChecked]
+  cases hft : firstTrue (readerSites c).length fs with
+  | some k => simp
+  | none =>
+    intro _
+    refine ⟨(firstTrue_none_iff _ _).1 hft, ?_, ?_⟩
+    · simp [okAll_ran]
+    · simp [okAll_failed]
+
+/-- **The first failure stops sqfs2tar / rdsquashfs**: exit 1, the sites executed are the first `k+1`, the
+    `k`-th is the one reported. -/
+theorem reader_first_failure_stops (c : RCfg) (fs : List Bool) (k : Nat) :
+    k < (readerSites c).length → allFalse k fs → fs.getD k false = true →
+      (runReader c fs).status = 1 ∧
+      (runReader c fs).trace.ran = (readerSites c).take (k + 1) ∧
+      (runReader c fs).trace.failed = (readerSites c)[k]? := by
+  intro hk haf hf
+  have hft : firstTrue (readerSites c).length fs = some k := (firstTrue_some _ _ _).2 ⟨hk, haf, hf⟩
+  unfold runReader
+  rw [runSites_checked current_allChecked, hft]
+  refine ⟨rfl, ?_, ?_⟩
+  · simp only [failAt, okAll_ran, List.nil_append]
+    exact (take_succ_getD _ _ _ hk).symm
+  · simp [failAt, List.getD_eq_getElem?_getD, List.getElem?_eq_getElem hk]
+
 /-! ### second layer: the block processor with fallible primitives -/
 
 open Sqfs.FailStop.BP in
 /-- **Errors propagate out of the block processor**: from *every* processor state and for every fault script, if
     any primitive (block allocation, in-flight copy, pool submit, pool dequeue / worker, `write_data_block` with
     its read-back and truncate, inode growth, fragment-table and hash-table updates) fails while an API call
-    (`begin_file`, `append`, `end_file`, `sync`, `finish`) runs, that call returns an error.  Source with
-    fixes/C13-sparse-tail-result.patch; for the pinned source see `Witness.C13.sparse_tail_fault_unreported`. -/
-theorem blockproc_error_propagates (fuel : Nat) (a : BP.Api) (p : BP.Proc) (fs : List Bool) :
-    (BP.runCall .fixed fuel a p fs).1.faulted = true → (BP.runCall .fixed fuel a p fs).1.ok = false := by
-  have hs := (sound_call fixed_checked fuel a).prop { script := fs, proc := p } rfl
+    (`begin_file`, `append`, `end_file`, `sync`, `finish`) runs, that call returns an error.  Holds for every
+    variant in which `set_block_size`'s result for an all-zero tail is tested — /repo as it is; for the snapshot
+    see `Witness.C13.sparse_tail_fault_unreported`. -/
+theorem blockproc_error_propagates {v : Variant} (hv : ∀ p, BP.checked v p = true) (fuel : Nat) (a : BP.Api) (p : BP.Proc)
+    (fs : List Bool) :
+    (BP.runCall v fuel a p fs).1.faulted = true → (BP.runCall v fuel a p fs).1.ok = false := by
+  have hs := (sound_call hv fuel a).prop { script := fs, proc := p } rfl
   unfold runCall
-  rcases hc : call Variant.fixed fuel a { script := fs, proc := p } with ⟨r, c⟩
+  rcases hc : call v fuel a { script := fs, proc := p } with ⟨r, c⟩
   rw [hc] at hs
   cases r with
   | ok u => intro h; have := hs h; simp [isErr] at this
@@ -247,15 +394,16 @@ theorem blockproc_error_propagates (fuel : Nat) (a : BP.Api) (p : BP.Proc) (fs :
 open Sqfs.FailStop.BP in
 /-- The same for a whole session driven the way the tools drive it (stop at the first error): a call during
     which a primitive failed is an erroring call, hence the last one. -/
-theorem blockproc_session_propagates (fuel : Nat) (calls : List BP.Api) (p : BP.Proc) (fs : List Bool) :
-    ∀ r ∈ BP.session .fixed fuel calls p fs, r.faulted = true → r.ok = false := by
+theorem blockproc_session_propagates {v : Variant} (hv : ∀ p, BP.checked v p = true) (fuel : Nat) (calls : List BP.Api)
+    (p : BP.Proc) (fs : List Bool) :
+    ∀ r ∈ BP.session v fuel calls p fs, r.faulted = true → r.ok = false := by
   induction calls generalizing p fs with
   | nil => intro r hr; simp [session] at hr
   | cons a rest ih =>
     intro r hr
     simp only [session] at hr
-    have h1 := blockproc_error_propagates fuel a p fs
-    rcases hrc : runCall Variant.fixed fuel a p fs with ⟨r0, fs', p'⟩
+    have h1 := blockproc_error_propagates hv fuel a p fs
+    rcases hrc : runCall v fuel a p fs with ⟨r0, fs', p'⟩
     rw [hrc] at hr h1
     simp only [] at hr h1
     split at hr
@@ -267,24 +415,45 @@ theorem blockproc_session_propagates (fuel : Nat) (calls : List BP.Api) (p : BP.
 
 /-! ### non-vacuity: the hypotheses above are satisfiable on non-trivial instances -/
 
-/-- a gensquashfs run with a pack file, three files, an export table -/
-def exCfg : Cfg := { tool := .gensquashfs, packFile := true, nfiles := 3, sparseTails := 1, exportable := true }
+/-- a gensquashfs run with a pack file, a pack directory, a relative output name, three files, an export table -/
+def exCfg : Cfg := { tool := .gensquashfs, packFile := true, packDir := true, relOut := true, nfiles := 3, exportable := true }
+/-- a tar2sqfs run: directory, file, symbolic link, an entry outside the new root -/
+def exTar : Cfg := { tool := .tar2sqfs, entries := [{}, {}, { link := true }, { skipped := true }] }
 
-example : (run .fixed exCfg []).status = 0 := by decide
-example : (run .fixed exCfg []).trace.ops.length = 15 := by decide
-example : (run .fixed exCfg (single 7)).status ≠ 0 ∧ (run .fixed exCfg (single 7)).cleanupReached = false := by decide
-example : (run .fixed exCfg (single 25)).status ≠ 0 ∧ (run .fixed exCfg (single 25)).cleanupReached = true := by decide
-example : 25 < (program exCfg).length ∧ allFalse 25 (single 25) ∧ (single 25).getD 25 false = true := by
+example : (run .fixed exCfg []).status = 0 ∧ (run .current exCfg []).status = 0 := by decide
+example : (run .fixed exCfg []).trace.ops.length = 14 := by decide
+example : (program .fixed exCfg).length = 35 ∧ (program .current exCfg).length = 34 := by decide
+example : (run .current exTar []).trace.ran.length = 37 := by decide
+-- init failure: cleanup not reached
+example : (run .fixed exCfg (single 7)).status ≠ 0 ∧ (run .fixed exCfg (single 7)).cleanupReached = false
+    ∧ (run .fixed exCfg (single 7)).out = .unlinked := by decide
+-- failure while packing: cleanup reached after `chdir`; the repaired source still hits the file
+example : (run .fixed exCfg (single 24)).status ≠ 0 ∧ (run .fixed exCfg (single 24)).cleanupReached = true
+    ∧ (run .fixed exCfg (single 24)).trace.cwd = .pack ∧ (run .fixed exCfg (single 24)).unlinkHit = some true := by decide
+example : 25 < (program .fixed exCfg).length ∧ allFalse 25 (single 25) ∧ (single 25).getD 25 false = true := by
   refine ⟨by decide, ?_, by decide⟩
   unfold allFalse
   decide
-example : (run .fixed { exCfg with tool := .tar2sqfs } (single 0)).out = .never := by decide
+example : (run .current { exCfg with tool := .tar2sqfs } (single 0)).out = .never := by decide
+-- hypothesis of the partial theorem: absolute name, pack directory given
+example : (run .current { exCfg with relOut := false } (single 24)).out = .unlinked := by decide
+-- readers
+example : (runReader { sqfs2tar := true, compressed := true, nentries := 3 } []).status = 0 := by decide
+example : (readerSites { sqfs2tar := false, op := .unpack, unpackRoot := true }).length = 17 := by decide
+example : (runReader { sqfs2tar := false, op := .cat, nsplice := 3 } (single 14)).trace.failed = some (.rSplice 1) := by decide
 
 /-- hypothesis of `blockproc_error_propagates` is satisfiable: the inode allocation of `begin_file` fails -/
-example : (BP.runCall .fixed 4 (.beginFile true false) {} [true]).1.faulted = true := by decide
+example : (BP.runCall .current 4 (.beginFile true false false false) {} [true]).1.faulted = true := by decide
 /-- … and with a processor that already holds a full block, the pool submit inside `append` fails -/
-example : (BP.runCall .fixed 4 (.append 1 false false)
+example : (BP.runCall .current 4 (.append 1 false false)
     { beginCalled := true, cur := some { size := 4 }, backlog := 1 } [true]).1 =
     ⟨false, some .fault, true, false, [.submit]⟩ := by decide
+/-- the last block of a file whose blocks duplicate earlier ones: read-back compare and truncate are primitives
+    of the call that dequeues it; a failing truncate is reported -/
+example : (BP.runCall .current 4 .sync
+    { backlog := 1, pool := [{ size := 0, last := true, dupBlocks := true }] } [false, false, true]).1 =
+    ⟨false, some .fault, true, false, [.poolDequeue, .dedupRead, .dedupTruncate]⟩ := by decide
+/-- `append` of 0 bytes without a current block: the C code dereferences NULL (frontend.c:171); the model says so -/
+example : (BP.runCall .current 4 (.append 0 false false) { beginCalled := true } []).1.err = some .nullDeref := by decide
 
 end Sqfs.C13
